@@ -169,7 +169,7 @@ func genC20c(g *Gen, seed, index uint64) *Plan {
 	cs := ChartSpec{Name: "demo", Version: "1.0.0", Values: map[string]interface{}{"a": "x"}}
 	raw := map[string]string{}
 	vals := map[string]interface{}{}
-	shape := g.Pick("include-self", "include-mutual", "tpl-cycle", "tpl-cycle-partial", "tpl-nested-finite", "include-chain-finite", "template-self")
+	shape := g.Pick("include-self", "include-mutual", "tpl-cycle", "tpl-cycle-partial", "tpl-nested-finite", "include-chain-finite", "template-self", "tpl-self", "tpl-mutual")
 	switch shape {
 	case "include-self":
 		raw["templates/_h.tpl"] = `{{- define "loop" -}}x{{ include "loop" . }}{{- end -}}`
@@ -186,6 +186,14 @@ func genC20c(g *Gen, seed, index uint64) *Plan {
 		vals["other"] = `{{ include "viaTpl" . }}`
 		raw["templates/_h.tpl"] = `{{- define "viaTpl" -}}{{ tpl .Values.snippet . }}{{- end -}}`
 		raw["templates/a.yaml"] = "apiVersion: v1\nkind: ConfigMap\nmetadata:\n  name: a\ndata:\n  k: {{ tpl .Values.snippet . | quote }}\n"
+	case "tpl-self":
+		// the value handed to tpl calls tpl on itself: no include, so include's nesting counter never sees it
+		vals["snippet"] = `{{ tpl .Values.snippet . }}`
+		raw["templates/a.yaml"] = "apiVersion: v1\nkind: ConfigMap\nmetadata:\n  name: a\ndata:\n  k: {{ tpl .Values.snippet . | quote }}\n"
+	case "tpl-mutual":
+		vals["ping"] = `x{{ tpl .Values.pong . }}`
+		vals["pong"] = `y{{ tpl .Values.ping . }}`
+		raw["templates/a.yaml"] = "apiVersion: v1\nkind: ConfigMap\nmetadata:\n  name: a\ndata:\n  k: {{ tpl .Values.ping . | quote }}\n"
 	case "tpl-nested-finite":
 		vals["l1"] = `{{ tpl .Values.l2 . }}`
 		vals["l2"] = `{{ tpl .Values.l3 . }}`
